@@ -96,6 +96,16 @@ CLAIMED = {
             "selection is a well-formed value passing both gates, and parses back (text, either prefix; binary) under ANY parser "
             "configuration, strict included -- via C01's refinement theorem and an invariant of the reference checksum fold.",
             "harness built with feature strict-parser; select_nth_unstable by contract; constants 170 / 48 regenerated from the source"),
+    "C16": ("Interface-level theorems (a (de)serializer = the data-model event it receives/presents; serde's forwarding "
+            "defaults included), for every hash, variant, codec configuration and both is_human_readable values: serialize emits "
+            "exactly the T1 hex string resp. exactly the binary form; deserialize(serialize(h)) = h; a document is accepted iff "
+            "the corresponding parser (from_str_bytes / TryFrom<&[u8]>) accepts it, with the same value; every other document "
+            "(wrong type, wrong length, bad digits/prefix, strict: invalid checksum or length code) is a deserialization error "
+            "of the stated class; never a panic.  The pinned tree violated totality (try_from(v).unwrap() in the bytes visitor "
+            "under strict-parser): C16_refuted_before_fix is the witness theorem on the pre-fix visitor; the defect was reported "
+            "by this check with the failing document and repaired by fix: commit 7da0ca7.",
+            "PARTIAL: serde_json / ciborium / postcard are outside the model (driven on the implementation by SERDE-FORMATS: "
+            "exact payloads, round trips, malformed documents); serde's visitor defaults by contract; three harness builds"),
 }
 
 NA_REASON = {
